@@ -184,7 +184,9 @@ def closest_point(mesh, points):
 
     # however: same closest point on two different faces
     # find the best one and correct triangle ids if necessary
-    check_distance = np.ptp(two_dists, axis=1) < tol.merge
+    # compare the two squared distances relative to their size: an absolute
+    # tolerance calls every pair of candidates of a small mesh a tie
+    check_distance = np.ptp(two_dists, axis=1) < tol.merge * two_dists.max(axis=1)
     check_magnitude = np.all(np.abs(two_dists) > tol.merge, axis=1)
 
     # mask results where corrections may be apply
